@@ -362,3 +362,32 @@ Proof.
   apply (agg_spec_unique sl gb fs base); auto.
   apply (agg_spec_perm sl gb fs base base'); auto. apply agg_typed_typed. exact AT.
 Qed.
+
+Lemma Forall2_impl' {A B} (P Q : A -> B -> Prop) l l' :
+  (forall a b, P a b -> Q a b) -> Forall2 P l l' -> Forall2 Q l l'.
+Proof. intros H. induction 1; constructor; auto. Qed.
+
+Theorem agg_avg_two_rows sl gb fs base :
+  agg_typed sl gb fs base = true ->
+  exists out, agg_run sl gb fs base = Ok out /\
+    forall o, In o out -> (List.length (grp_for sl gb fs base o) <= 2)%nat ->
+      Forall2 (fun d v => cell_ok d fs (grp_for sl gb fs base o) v = true) sl o.
+Proof.
+  intros H. destruct (agg_cells_correct sl gb fs base H) as [out [E C]].
+  exists out. split; auto. intros o Ho L. eapply Forall2_impl'; [|exact (C o Ho)]. cbn. auto.
+Qed.
+
+(* the witness of the known finding: AVG over [1;0;0] is 1, the mean is 1/3 *)
+Definition w_sl : list derivedcol := [mkDC (SPAvg (mkCol "" "v")) ""].
+Definition w_fs : list field := [("t"%string, "v"%string)].
+Definition w_base : list row := [[VInt 1]; [VInt 0]; [VInt 0]].
+
+Lemma full_statement_refuted :
+  ~ (forall sl gb fs base, agg_typed sl gb fs base = true ->
+       exists out, agg_run sl gb fs base = Ok out /\ AggSpec sl gb fs base out).
+Proof.
+  intros H. destruct (H w_sl [] w_fs w_base) as [out [E S]]; [vm_compute; reflexivity|].
+  assert (R : agg_run w_sl [] w_fs w_base = Ok [[VInt 1]]) by (vm_compute; reflexivity).
+  rewrite R in E. inversion E; subst out.
+  apply check_agg_iff in S. vm_compute in S. discriminate.
+Qed.
